@@ -165,6 +165,15 @@ MUTANTS = [
     ("rwg_truncate_flag_inverted", "bempp_cl/api/space/maxwell_spaces.py", "                    if not truncate_at_segment_edge:", "                    if truncate_at_segment_edge:", 0, ["C09"]),
     ("rwg_alias_guard_flip", "bempp_cl/api/space/maxwell_spaces.py", "            if local_multipliers[element_index, local_index] == 0:\n                dofmap[local_index] = dofmap[first_nonzero]", "            if local_multipliers[element_index, local_index] != 0:\n                dofmap[local_index] = dofmap[first_nonzero]", 0, ["C09"]),
     ("rwg_numbering_edge_index_swapped", "bempp_cl/api/space/maxwell_spaces.py", "            edge_index = element_edges[local_index, element]\n            if edge_dofs[edge_index] != -1:\n                has_dof = True", "            edge_index = element_edges[element, local_index]\n            if edge_dofs[edge_index] != -1:\n                has_dof = True", 0, ["C09"]),
+    ("sum_guard_polarity", "bempp_cl/api/assembly/boundary_operator.py", "            not op1.domain.is_compatible(op2.domain)", "            op1.domain.is_compatible(op2.domain)", 0, ["C14"]),
+    ("blocked_sum_guard_eq", "bempp_cl/api/assembly/blocked_operator.py", "            op1.domain_spaces != op2.domain_spaces", "            op1.domain_spaces == op2.domain_spaces", 0, ["C14"]),
+    ("discrete_product_guard_eq", "bempp_cl/api/assembly/discrete_boundary_operator.py", "        if op1.shape[1] != op2.shape[0]:", "        if op1.shape[1] == op2.shape[0]:", 0, ["C14"]),
+    ("dense_add_minus", "bempp_cl/api/assembly/discrete_boundary_operator.py", "return DenseDiscreteBoundaryOperator(self.to_dense() + other.to_dense())", "return DenseDiscreteBoundaryOperator(self.to_dense() - other.to_dense())", 0, ["C14"]),
+    ("diagonal_neg_positive", "bempp_cl/api/assembly/discrete_boundary_operator.py", "return DiagonalOperator(-self.get_diagonal())", "return DiagonalOperator(self.get_diagonal())", 0, ["C14"]),
+    ("generic_is_complex_flip", "bempp_cl/api/assembly/discrete_boundary_operator.py", "self._is_complex = self.dtype == \"complex128\" or self.dtype == \"complex64\"", "self._is_complex = self.dtype != \"complex128\" or self.dtype == \"complex64\"", 0, ["C14"]),
+    ("rank_one_dtype_flip", "bempp_cl/api/assembly/discrete_boundary_operator.py", "        if row.dtype == \"complex128\" or column.dtype == \"complex128\":", "        if row.dtype == \"complex128\" and column.dtype == \"complex128\":", 0, ["C14"]),
+    ("potential_compat_points_plus", "bempp_cl/api/assembly/potential_operator.py", "np.linalg.norm(self.evaluation_points - other.evaluation_points, ord=np.inf) == 0", "np.linalg.norm(self.evaluation_points + other.evaluation_points, ord=np.inf) == 0", 0, ["C14"]),
+    ("potential_compat_count_ne", "bempp_cl/api/assembly/potential_operator.py", "            self.component_count == other.component_count", "            self.component_count != other.component_count", 0, ["C14"]),
     ("hyp_guard_trial_dropped", "bempp_cl/api/operators/boundary/laplace.py", "    if dual_to_range.shapeset.identifier != \"p1_discontinuous\":", "    if domain.shapeset.identifier != \"p1_discontinuous\":", 0, ["C06"]),
     ("efield_guard_accepts_bc", "bempp_cl/api/operators/boundary/maxwell.py", "    if domain.identifier != \"rwg0\":", "    if domain.identifier not in (\"rwg0\", \"snc0\"):", 0, ["C06"]),
     ("maxwell_pot_guard_removed", "bempp_cl/api/operators/potential/maxwell.py", "    if space.identifier != \"rwg0\":", "    if space is None:", 1, ["C08"]),
@@ -234,6 +243,7 @@ MUTANTS = [
 
 # behaviour-preserving rewrites: every listed check must stay silent (exit 0)
 EQUIVALENTS = [
+    ("eq_blocked_product_guard_not_eq", "bempp_cl/api/assembly/blocked_operator.py", "        if op2.range_spaces != op1.domain_spaces:", "        if not (op1.domain_spaces == op2.range_spaces):", 0, ["C14"]),
     ("eq_p1_dof_table_init", "bempp_cl/api/space/scalar_spaces.py", "    dofs = -_np.ones(number_of_vertices)", "    dofs = _np.zeros(number_of_vertices)", 0, ["C09", "C16"]),
     ("eq_rwg_dofmap_init", "bempp_cl/api/space/maxwell_spaces.py", "        dofmap = -_np.ones(3, dtype=_np.int32)", "        dofmap = _np.zeros(3, dtype=_np.int32)", 0, ["C09", "C16"]),
     ("eq_guard_not_eq", "bempp_cl/api/operators/boundary/maxwell.py", "    if domain.identifier != \"rwg0\":", "    if not (domain.identifier == \"rwg0\"):", 0, ["C06"]),
